@@ -136,3 +136,13 @@ Print Assumptions C13_quoted_at_alone_is_no_field.
 (** Not proved: the operators of the table applied to $@ and $* themselves and the pattern-removal
     operators on them (one removal per positional parameter); decided by the correspondence with
     the implementation and the table oracle. *)
+
+(** Expand under mode Quote expands the word "as if it is within double-quotes": a word made of $@
+    expansions only, without positional parameters, gives no field there either. *)
+Theorem C13_at_in_quote_mode_is_no_field :
+  forall users glob e w mode,
+    only_at w = true -> (length (args e) <= 1)%nat ->
+    mbit mode mQuote = true -> mbit mode mLiteral = false -> mbit mode mPattern = false ->
+    expand_top users glob e w mode = Ok (e, []).
+Proof. exact at_in_quote_mode_is_no_field. Qed.
+Print Assumptions C13_at_in_quote_mode_is_no_field.
